@@ -37,12 +37,39 @@ func (m *Model) ruleDSN(r *Results) {
 	opts := map[string][]opt{}
 	var openCall ssa.CallInstruction
 	m.eachCall(fn, func(c ssa.CallInstruction) {
+		if f := c.Common().StaticCallee(); f != nil && f.Pkg != nil && f.Pkg.Pkg.Path() == "database/sql" && f.Name() == "Open" {
+			openCall = c
+		}
+	})
+	// option-setting calls in the open function itself or in helpers it calls; for a helper the
+	// anchoring block is the call site in the open function, provided the option is set on every
+	// path through the helper
+	var scan func(g *ssa.Function, anchor *ssa.BasicBlock, anchorPos string, depth int)
+	scan = func(g *ssa.Function, anchor *ssa.BasicBlock, anchorPos string, depth int) {
+	m.eachCall(g, func(c ssa.CallInstruction) {
 		f := c.Common().StaticCallee()
 		if f == nil {
 			return
 		}
-		if f.Pkg != nil && f.Pkg.Pkg.Path() == "database/sql" && f.Name() == "Open" {
-			openCall = c
+		if m.inPkg(f) && depth < 2 && f != fn && len(f.Blocks) > 0 {
+			ab := anchor
+			if g == fn {
+				ab = c.Block()
+			}
+			scan(f, ab, m.instrPos(c), depth+1)
+			return
+		}
+		blockOf := func() *ssa.BasicBlock {
+			if g == fn {
+				return c.Block()
+			}
+			// inside a helper: the call must dominate the helper's returns
+			for _, ret := range returnsOf(g) {
+				if !(c.Block() == ret.Block() || c.Block().Dominates(ret.Block())) {
+					return nil
+				}
+			}
+			return anchor
 		}
 		if f.Signature.Recv() != nil && isNamed(f.Signature.Recv().Type(), "net/url", "Values") && (f.Name() == "Add" || f.Name() == "Set") && len(c.Common().Args) == 3 {
 			k, ok1 := constString(c.Common().Args[1])
@@ -53,14 +80,16 @@ func (m *Model) ruleDSN(r *Results) {
 			if !ok2 {
 				v = "<dynamic>"
 			}
-			opts[k] = append(opts[k], opt{v, c.Block(), m.instrPos(c)})
+			opts[k] = append(opts[k], opt{v, blockOf(), m.instrPos(c)})
 		}
 		if f.Signature.Recv() != nil && isNamed(f.Signature.Recv().Type(), "net/url", "Values") && f.Name() == "Del" && len(c.Common().Args) == 2 {
 			if k, ok := constString(c.Common().Args[1]); ok && strings.HasPrefix(k, "_") {
-				opts[k] = append(opts[k], opt{"<deleted>", c.Block(), m.instrPos(c)})
+				opts[k] = append(opts[k], opt{"<deleted>", blockOf(), m.instrPos(c)})
 			}
 		}
 	})
+	}
+	scan(fn, nil, "", 0)
 	if openCall == nil {
 		r.undecided(rule, "sql.Open call", m.pos(fn.Pos()), "no sql.Open call in %s", fn)
 		return
@@ -77,7 +106,7 @@ func (m *Model) ruleDSN(r *Results) {
 				r.bad(rule, k, o.pos, "connection option %s=%s: %s", key, o.val, why)
 				return
 			}
-			if !(o.block == openCall.Block() || o.block.Dominates(openCall.Block())) {
+			if o.block == nil || !(o.block == openCall.Block() || o.block.Dominates(openCall.Block())) {
 				r.bad(rule, k, o.pos, "connection option %s is not set on every path to sql.Open", key)
 				return
 			}
@@ -417,21 +446,36 @@ func (m *Model) ruleLIVE(r *Results) {
 func (m *Model) ruleHLCMARKSQL(r *Results) {
 	const rule = "R-HLC-MARK-SQL"
 	m.sitesHealthy(r, rule)
-	mh := m.A.MarkHelper
-	if mh == nil {
-		r.undecided(rule, "mark helper", "-", "anchor unresolved: %s", m.A.Problems["MarkHelper"])
+	clos := m.A.AllocClos
+	if clos == nil {
+		r.undecided(rule, "allocator", "-", "anchor unresolved: %s", m.A.Problems["Allocator"])
 		return
 	}
-	var casParam *ssa.Parameter
-	for _, p := range mh.Params {
-		if b, ok := p.Type().Underlying().(*types.Basic); ok && b.Kind() == types.Uint64 {
-			casParam = p
+	// the CAS handed to the write callback
+	var cbCas ssa.Value
+	m.eachCall(clos, func(c ssa.CallInstruction) {
+		if c.Common().StaticCallee() == nil && !c.Common().IsInvoke() {
+			for _, arg := range c.Common().Args {
+				if b, ok := arg.Type().Underlying().(*types.Basic); ok && b.Kind() == types.Uint64 {
+					cbCas, _ = m.resolve(arg, m.closureFrame(clos))
+				}
+			}
 		}
-	}
+	})
+	extent := m.reachableLocal(clos)
 	haveBucket, haveColl := false, false
-	for _, s := range m.Sites {
-		if s.Fn != mh {
+	for _, s := range m.markSites() {
+		if !extent[s.Fn] {
 			continue
+		}
+		// frame: the closure itself, or the helper as called from the closure
+		fr := m.closureFrame(clos)
+		if s.Fn != clos {
+			m.eachCall(clos, func(c ssa.CallInstruction) {
+				if c.Common().StaticCallee() == s.Fn {
+					fr = m.closureFrame(clos).inline(c, s.Fn)
+				}
+			})
 		}
 		for _, v := range s.Variants {
 			st := v.Stmt()
@@ -443,16 +487,16 @@ func (m *Model) ruleHLCMARKSQL(r *Results) {
 			if !ok {
 				continue
 			}
-			key := s.key(m, v)
+			key := "mark / " + st.Shape()
 			pos := m.instrPos(s.Call)
 			b, okb := s.bindingFor(e)
 			isCas := false
-			if okb {
-				rv, _ := m.resolve(b.V, b.Fr)
-				isCas = casParam != nil && rv == ssa.Value(casParam)
+			if okb && b.V != nil {
+				rv, _ := m.resolve(b.V, fr)
+				isCas = cbCas != nil && stripConv(rv) == stripConv(cbCas)
 			}
 			if !isCas {
-				r.bad(rule, key, pos, "lastCas is not set to the helper's CAS argument (%s)", e)
+				r.bad(rule, key, pos, "lastCas is not set to the CAS that was handed to the write (%s)", e)
 				continue
 			}
 			if !onlyClasses(s, HTxn) {
@@ -462,25 +506,28 @@ func (m *Model) ruleHLCMARKSQL(r *Results) {
 			switch w.Table {
 			case "bucket":
 				r.check(len(w.Where) == 0, rule, key, pos, "bucket.lastCas := cas", "bucket mark update is conditional")
-				haveBucket = len(w.Where) == 0
+				haveBucket = haveBucket || len(w.Where) == 0
 			case "collections":
 				okc := false
 				if len(w.Where) == 1 {
 					if p := colEqParam(w.Where[0], "id"); p != nil {
-						if b, ok := s.bindingFor(p); ok && m.isRecvCollID(b) {
-							okc = true
+						if b, ok := s.bindingFor(p); ok {
+							b.Fr = fr
+							if m.isRecvCollID(b) {
+								okc = true
+							}
 						}
 					}
 				}
 				r.check(okc, rule, key, pos, "collections.lastCas := cas WHERE id = receiver id", "collection mark update is not keyed exactly by the receiver's id")
-				haveColl = okc
+				haveColl = haveColl || okc
 			}
 		}
 	}
 	if !haveBucket {
-		r.bad(rule, m.declName(mh)+" / bucket mark", m.pos(mh.Pos()), "the mark helper does not advance bucket.lastCas (the clock cannot be re-seeded after reopen)")
+		r.bad(rule, "mark / bucket", m.pos(clos.Pos()), "the allocator does not advance bucket.lastCas (the clock cannot be re-seeded after reopen)")
 	}
 	if !haveColl {
-		r.bad(rule, m.declName(mh)+" / collection mark", m.pos(mh.Pos()), "the mark helper does not advance collections.lastCas (views cannot tell they are stale)")
+		r.bad(rule, "mark / collections", m.pos(clos.Pos()), "the allocator does not advance collections.lastCas (views cannot tell they are stale)")
 	}
 }
